@@ -219,15 +219,13 @@ def parse_error_trace(out):
 def read_sim_traces(prefix):
     """Files written by -simulate file=prefix : prefix_<worker>_<n>. Each is a TLA+ module fragment with
     STATE_k == /\\ var = value ..."""
-    traces = []
     for fn in sorted(glob.glob(prefix + "*")):
         txt = open(fn).read()
         states = []
         for m in re.finditer(r"^STATE_(\d+) ==\s*\n(.*?)(?=^\\\*|^STATE_\d+ ==|^====|\Z)", txt, flags=re.M | re.S):
             states.append(parse_state(m.group(2)))
         if states:
-            traces.append(states)
-    return traces
+            yield states
 
 
 def printed_tuples(out, tag):
